@@ -179,6 +179,12 @@ Proof.
 Qed.
 Print Assumptions C19_new_engine_failure_reaches_first_pass.
 
+(* the engine is run with the pass's own package, type information, sizes and file set and with the Go version parsed
+   from -go: the RunContext literal (regenerated) names each of them exactly once and is not modified afterwards *)
+Theorem C19_run_context_forwards_the_pass : run_context_ok gen_run_context = true.
+Proof. exact gen_run_context_ok. Qed.
+Print Assumptions C19_run_context_forwards_the_pass.
+
 (* non-vacuity: concrete, non-trivial instances *)
 Example c19_report :
   let r := {| rd_rule_info := {| ri_line := 12; ri_group := {| g_name := [103]; g_filename := [47;120;47;114;46;103;111] |} |};
